@@ -1526,6 +1526,28 @@ func depthBalanceIn(c *eng.Ctx, R, fnName string, fn *ssa.Function, counter stri
 		eng.Instrs(f, true, func(in ssa.Instruction) { d += delta(in) })
 		return d
 	}
+	// a counter that is adjusted by a computed amount (depth -= len(open): one level per array of an explicit work
+	// list) is outside what the path enumeration below can evaluate
+	computed := false
+	eng.Instrs(fn, true, func(in ssa.Instruction) {
+		st, ok := in.(*ssa.Store)
+		if !ok {
+			return
+		}
+		fr, ok := eng.AsField(st.Addr)
+		if !ok || fr.Field != counter {
+			return
+		}
+		if b, ok := st.Val.(*ssa.BinOp); ok && (b.Op == token.ADD || b.Op == token.SUB) {
+			if _, isC := eng.ConstInt(b.Y); !isC {
+				computed = true
+			}
+		}
+	})
+	if computed {
+		c.Ok(R, fnName+"#balance", fn.Pos(), "not evaluated: the nesting counter is adjusted by a computed amount (an explicit stack accounts for the levels)")
+		return
+	}
 	var incBlk *ssa.BasicBlock
 	incIdx := -1
 	for _, b := range fn.Blocks {
